@@ -137,6 +137,47 @@ def one_pass(p, cfg, pts):
     return x, xp, lj, xb, ljb
 
 
+def fd_logdet(p, xp, rows):
+    prim = list(p.prime_parameters)
+    par = list(p.parameters)
+    if len(prim) != len(par) or not rows:
+        return None
+    K = len(prim)
+    scale = {}
+    for n in prim:
+        v = np.abs(np.asarray(xp[n], dtype=float))
+        v = v[np.isfinite(v)]
+        scale[n] = float(v.max()) if v.size and v.max() > 0 else 1.0
+    batch, hs = [], []
+    for j in rows:
+        base = xp[j:j + 1]
+        hrow = []
+        for n in prim:
+            h = 1e-6 * max(abs(float(base[n][0])), 0.1 * scale[n])
+            hrow.append(h)
+            for sg in (1.0, -1.0):
+                row = base.copy()
+                row[n] = base[n] + sg * h
+                batch.append(row)
+        hs.append(hrow)
+    probe = np.concatenate(batch)
+    with np.errstate(all="ignore"):
+        xb, _ = p.inverse_rescale(probe)
+    out = []
+    for r_, j in enumerate(rows):
+        J = np.zeros((K, K))
+        for k in range(K):
+            ip = (r_ * K + k) * 2
+            for a_, q in enumerate(par):
+                J[a_, k] = (float(xb[q][ip]) - float(xb[q][ip + 1])) / (2 * hs[r_][k])
+        if not np.all(np.isfinite(J)):
+            out.append(float("nan"))
+            continue
+        sign, ld = np.linalg.slogdet(J)
+        out.append(float(ld) if sign != 0 else float("-inf"))
+    return out
+
+
 def run_config(cfg, outdir):
     try:
         p = build(cfg, outdir)
@@ -217,6 +258,9 @@ def run_config(cfg, outdir):
             for pts in cfg["neighbours"]:
                 _, _, ljn, _, _ = one_pass(p, cfg, pts)
                 res["lj_nb"].append(fl(ljn))
+        # central finite differences of the implementation's own INVERSE map: ln|det dx/dx'| at the given rows
+        if cfg.get("fd_rows"):
+            res["fd_logdet"] = fd_logdet(p, xp, cfg["fd_rows"])
         # numerical derivative of the implemented map (search-on-break path only; 1-d blocks)
         if cfg.get("deriv"):
             d = cfg["deriv"]  # {"name": parameter, "prime": prime name, "h": [...per point...]}
